@@ -6,6 +6,7 @@ package allocation
 
 import (
 	"errors"
+	"math"
 	"net"
 	"sync"
 	"sync/atomic"
@@ -382,9 +383,10 @@ func (a *Allocation) WriteTo(p []byte, addr net.Addr) (n int, err error) {
 const rtpMTU = 1600
 
 func (a *Allocation) packetConnHandler(manager *Manager) {
-	// One spare byte tells a datagram of exactly rtpMTU bytes from a longer
-	// one that the read has cut short.
-	buffer := make([]byte, rtpMTU+1)
+	// The buffer holds the largest UDP payload, so that no transport ever
+	// has to cut a read short (some report that as an error): a datagram of
+	// more than rtpMTU bytes is recognised by its length and dropped.
+	buffer := make([]byte, math.MaxUint16)
 
 	for {
 		n, srcAddr, err := a.relayPacketConn.ReadFrom(buffer)
